@@ -2,6 +2,8 @@
 
 from __future__ import annotations
 
+import ast
+
 from ..report import Cx, Ob, describe, obligation
 from ..rules import (
     API,
@@ -13,6 +15,8 @@ from ..rules import (
     TABLES,
     URI_SIDE,
     Prov,
+    merger,
+    merger_name,
     _container_fields,
     pair_compare_cover,
     self_call,
@@ -44,22 +48,27 @@ def d1(cx: Cx, ob: Ob) -> None:
 @obligation("C05-D2", "who-may-write: converter state is written only in __init__/add_record/_index; Record fields of owned records only in _merge; all derived state is maintained by _index", floor=5)
 def d2(cx: Cx, ob: Ob) -> None:
     state_closure(cx, ob)
+    MERGE = merger_name(cx)
     ci = cx.model.cls(CONV, ob.id)
     for m in ci.methods.values():
+        if not m.self_name or m.self_name == "cls" or any(
+            isinstance(d, ast.Name) and d.id in ("classmethod", "staticmethod") for d in m.node.decorator_list
+        ):
+            continue  # an alternative constructor has no converter yet: the records it fills are its own until cls(...) takes them
         s = cx.summary(m, ob.id)
         for ev, ctx in s.walk():
             if ev.kind == "store" and op(ev.a) == "attr" and ev.a[2] in (CANON | LISTS) and op(ev.a[1]) != "param" or (
                 ev.kind == "store" and op(ev.a) == "attr" and ev.a[2] in (CANON | LISTS) and m.self_name and ev.a[1] != ("param", m.self_name)
             ):
-                if m.name != "_merge":
+                if m.name != MERGE:
                     ob.violate(m.qualname, where(m, ev.line), f"{m.name} assigns Record field `{show(ev.a)[:50]}`; only _merge may change records the converter owns", detail=f"record-store:{ev.a[2]}")
             if ev.kind == "expr" and op(ev.a) == "call" and callee_name(ev.a) in MUTATORS:
                 r = ev.a[1][1] if op(ev.a[1]) == "attr" else None
-                if op(r) == "attr" and r[2] in LISTS and m.name != "_merge":
+                if op(r) == "attr" and r[2] in LISTS and m.name != MERGE:
                     ob.violate(m.qualname, where(m, ev.line), f"{m.name} mutates `{show(r)[:50]}` in place; only _merge may change records the converter owns", detail=f"record-mutate:{r[2]}")
 
 
-def _mutating(ev, me) -> str | None:
+def _mutating(ev, me, merge_name: str = "_merge") -> str | None:
     if ev.kind == "store" and op(ev.a) in ("attr", "item"):
         root = ev.a[1]
         while op(root) in ("attr", "item"):
@@ -70,7 +79,7 @@ def _mutating(ev, me) -> str | None:
     if isinstance(t, tuple):
         for c in subterms(t):
             if op(c) == "call" and op(c[1]) == "attr":
-                if c[1][1] == me and c[1][2] in ("_merge", "_index", "add_record", "add_prefix"):
+                if c[1][1] == me and c[1][2] in ("_merge", "_index", "add_record", "add_prefix", merge_name):
                     return f"call self.{c[1][2]}"
                 r = c[1][1]
                 if op(r) == "attr" and r[1] == me and c[1][2] in MUTATORS:
@@ -83,6 +92,7 @@ def d3(cx: Cx, ob: Ob) -> None:
     fn = cx.fn(f"{CONV}.add_record", ob.id)
     s = cx.summary(fn, ob.id)
     me = ("param", fn.self_name)
+    MERGE = merger_name(cx)
     raises = s.raises()
     if not raises:
         ob.violate(fn.qualname, fn.where, "add_record never rejects a record (several matches; one match without merge)", detail="missing-raise")
@@ -93,7 +103,7 @@ def d3(cx: Cx, ob: Ob) -> None:
         if name and not (name == "ValueError" or cx.model.is_subclass(name, "ValueError")):
             ob.violate(fn.qualname, where(fn, line), f"add_record rejects with {name}, not ValueError", detail="raise-class")
         for ev in ctx.trail:
-            m = _mutating(ev, me)
+            m = _mutating(ev, me, MERGE)
             if m:
                 ob.violate(fn.qualname, where(fn, ev.line), f"`{m}` happens before the rejection at line {line}: a rejected call leaves the converter changed", witness=describe_path(ctx), detail="mutate-before-raise")
                 break
@@ -131,7 +141,7 @@ def d3(cx: Cx, ob: Ob) -> None:
             )
             if not (ok and more):
                 ob.violate(fn.qualname, where(fn, ev.line), "a new record is appended on a path that does not exclude an existing match", witness=describe_path(ctx), detail="append-guard")
-        if self_call(c, me, "_merge"):
+        if self_call(c, me, MERGE):
             if not any(g.kind == "guard" and g.a == ("param", "merge") and g.b is True for g in ctx.guards):
                 ob.violate(fn.qualname, where(fn, ev.line), "_merge is reachable without merge=True", witness=describe_path(ctx), detail="merge-guard")
     # the same as a decision table over worlds (number of matching records, merge flag): whatever the nesting,
@@ -172,7 +182,7 @@ def d3(cx: Cx, ob: Ob) -> None:
                     if not all(formula_eval(g.a, asg) == g.b for g in gs):
                         continue
                     appended = any(ev.kind == "expr" and op(ev.a) == "call" and op(ev.a[1]) == "attr" and ev.a[1][2] == "append" and ev.a[1][1] == ("attr", me, "records") for ev in p.events)
-                    merged = any((ev.kind in ("expr", "bind") and self_call(ev.a if ev.kind == "expr" else ev.b, me, "_merge")) or (ev.kind == "guard" and self_call(ev.a, me, "_merge")) for ev in p.events)
+                    merged = any((ev.kind in ("expr", "bind") and self_call(ev.a if ev.kind == "expr" else ev.b, me, MERGE)) or (ev.kind == "guard" and self_call(ev.a, me, MERGE)) for ev in p.events)
                     raised = p.out is not None and p.out[0] == "raise"
                     got = "raise" if raised else "merge" if merged else "append" if appended else "nothing"
                     if got == want or (want, got, n >= 2, mg) in seen_bad:
@@ -230,9 +240,10 @@ def _merge_takes_care(cx: Cx, ob: Ob, fn, path, me) -> bool:
         merges INTO.
 
     Returns True when the case was judged here (a violation may have been recorded)."""
-    mfn = cx.model.functions.get(f"{CONV}._merge")
+    mfn = merger(cx)
     if mfn is None:
         return False
+    MERGE = mfn.name
     ms = cx.summary(mfn)
     into = ("param", "into")
     adds = []  # (field, added term, event, ctx)
@@ -242,7 +253,7 @@ def _merge_takes_care(cx: Cx, ob: Ob, fn, path, me) -> bool:
             adds.append((c[1][1][2], c[2][0], c[1][2], ev, ctx))
     if not adds:
         return False
-    merge_guard = [g for g in path.events if g.kind == "guard" and op(g.a) == "call" and self_call(g.a, me, "_merge")]
+    merge_guard = [g for g in path.events if g.kind == "guard" and op(g.a) == "call" and self_call(g.a, me, MERGE)]
     if merge_guard and merge_guard[0].b is False:
         # (A) the result of _merge decides whether to re-index
         leaves = set()
@@ -310,6 +321,7 @@ def check_add_record_pairing(cx: Cx, ob: Ob) -> None:
     fn = cx.fn(f"{CONV}.add_record", ob.id)
     s = cx.summary(fn, ob.id)
     me = ("param", fn.self_name)
+    MERGE = merger_name(cx)
 
     def calls_of(ev):
         out = []
@@ -324,7 +336,7 @@ def check_add_record_pairing(cx: Cx, ob: Ob) -> None:
             for ev in p.events:
                 if ev.kind in ("expr", "bind", "guard", "store"):
                     for c in calls_of(ev):
-                        if self_call(c, me, "_merge"):
+                        if self_call(c, me, MERGE):
                             into = dict(c[3]).get("into") or (c[2][1] if len(c[2]) > 1 else None)
                             if not any(ch[1] == ev.line and ch[2] == "merge" for ch in changed):
                                 changed.append([into, ev.line, "merge", False])
@@ -333,8 +345,10 @@ def check_add_record_pairing(cx: Cx, ob: Ob) -> None:
                         elif op(c[1]) == "attr" and c[1][2] in ("append", "insert") and c[1][1] == ("attr", me, "records"):
                             changed.append([c[2][-1] if c[2] else None, ev.line, "append", False])
                         elif self_call(c, me, "_index"):
+                            ixf = cx.model.functions.get(f"{CONV}._index")
+                            n_rec = sum(1 for q in (ixf.params if ixf else []) if q.annotation is not None and "Record" in ast.unparse(q.annotation))
                             for ch in changed:
-                                if c[2][:1] == (ch[0],):
+                                if c[2][:1] == (ch[0],) or (n_rec > 1 and (ch[0] in c[2] or any(v == ch[0] for _, v in c[3]))):
                                     ch[3] = True
                 if ev.kind in ("loop", "while") and ev.body:
                     scan(ev.body, False)
@@ -372,7 +386,7 @@ def d5(cx: Cx, ob: Ob) -> None:
 
 
 def check_merge(cx: Cx, ob: Ob) -> None:
-    fn = cx.fn(f"{CONV}._merge", ob.id)
+    fn = merger(cx) or cx.fn(f"{CONV}._merge", ob.id)
     s = cx.summary(fn, ob.id)
     prov = Prov(s)
     rec, into = ("param", "record"), ("param", "into")
@@ -481,6 +495,15 @@ def check_merge(cx: Cx, ob: Ob) -> None:
                     unknown_guard = True
                 elif any(x == val for x in subterms(c)):
                     unknown_guard = True
+        extra_cover = cover - sides[lst]
+        if extra_cover:
+            ob.violate(
+                fn.qualname,
+                where(fn, ev.line),
+                f"_merge treats a name as already present in into.{lst} when it equals one of the existing record's {sorted(extra_cover)} (the other side of the record): such a name is dropped - the merge succeeds but the name is in no record and resolves nowhere",
+                witness="merging a record whose CURIE prefix synonym equals the existing record's URI prefix string (e.g. 'urn:ex:'): the synonym is lost",
+                detail=f"guard-cover-extra:{lst}",
+            )
         missing = sides[lst] - cover
         if missing and unknown_guard:
             ob.undecide(f"_merge: guard on the append to into.{lst} not recognised")
@@ -643,6 +666,11 @@ def check_match_record(cx: Cx, ob: Ob) -> None:
                 q = m2.qualname if m2 is not None else None
             if q is not None and q not in KNOWN_FUNCTIONS and q.rsplit(".", 1)[-1] not in ("_eq", "_in") and any(x == ext or x == recv for a in (*c[2], *(v for _, v in c[3])) for x in subterms(a)):
                 opaque.append(q)
+            # reflection: which field is read is a run-time value (a table of field names), not visible in the term
+            if c[1] == ("builtin", "getattr") and len(c[2]) >= 2 and op(c[2][1]) != "const" and any(x == ext or op(x) == "bv" for x in subterms(c[2][0])):
+                opaque.append(f"getattr(.., {show(c[2][1])[:30]})")
+            if (op(c[1]) == "attr" and c[1][2] in ("model_dump", "dict", "__getattribute__") and (c[1][1] == ext or op(c[1][1]) == "bv")) or (c[1] == ("builtin", "vars") and c[2]):
+                opaque.append(f"{show(c)[:30]}")
     for side in (CURIE_SIDE, URI_SIDE):
         need = {(f, g) for f in side for g in side}
         missing = need - seen
